@@ -379,7 +379,17 @@ func playTCP(local net.IP, port int, remote net.Addr, cn Conn, linger, hang time
 func handlersRunning() int {
 	buf := make([]byte, 8<<20)
 	n := runtime.Stack(buf, true)
-	return strings.Count(string(buf[:n]), "server.(*Honeytrap).handle(")
+	// a goroutine counts when it is inside the server's per-connection function or - should that
+	// unexported function be renamed - inside a service (package services/...) below the server:
+	// the names of unexported functions of /repo are not relied on alone
+	cnt := 0
+	for _, g := range strings.Split(string(buf[:n]), "\n\n") {
+		if strings.Contains(g, "server.(*Honeytrap).handle(") ||
+			(strings.Contains(g, "github.com/honeytrap/honeytrap/services") && strings.Contains(g, "github.com/honeytrap/honeytrap/server.")) {
+			cnt++
+		}
+	}
+	return cnt
 }
 
 func waitHandlers(hang time.Duration) int {
